@@ -209,6 +209,12 @@ func (o *oracle) accepted(scn, how string, addr, payload []byte, jc interface{})
 	if soc.Valid(boson.NewChunk(boson.NewAddress(addr), payload)) {
 		return
 	}
+	// boundary classes get their own signature
+	if why == "hash-mismatch" && len(payload) == 8 {
+		why = "hash-mismatch:empty-payload"
+	} else if why == "hash-mismatch" && len(payload) == 9 {
+		why = "hash-mismatch:one-byte-payload"
+	}
 	o.run.Violate(hx.Violation{
 		Sig:    fmt.Sprintf("%s:%s-invalid-chunk:%s", scn, how, why),
 		Detail: fmt.Sprintf("%s: a %d-byte payload was %s for address %x but is neither a valid content-addressed chunk (%s) nor a valid single-owner chunk for it", scn, len(payload), how, addr, why),
@@ -788,6 +794,11 @@ func main() {
 	}
 	for i := 0; i < run.N(30, 400); i++ {
 		runCase(run, orc, genRelay(rl, all))
+	}
+	// boundary class: empty / one-byte payloads with assorted spans
+	re := r.Fork(8)
+	for i := 0; i < run.N(30, 400); i++ {
+		runCase(run, orc, genEmpty(re))
 	}
 	for i := 0; i < run.N(100, 1600); i++ {
 		runCase(run, orc, genPyr(rp, pool, all))
